@@ -743,6 +743,16 @@ pub fn run_once_until(ep: &Episode, env: &Env, dirbase: &'static str, only_updat
                     w.handles[h as usize] = Some((mm, hd));
                     match r {
                         Err(Stop::Violation(v)) if v.class == "decoder" => return Err(w.blame_flush(m, v)),
+                        // a structural finding that is not this property's: no decoded state to
+                        // compare the next step with; the API-level audit decides right away
+                        Err(Stop::Inconclusive(s)) if s.starts_with("out-of-scope:") => {
+                            w.stats.probe("decoder-finding-outside-scope");
+                            w.maps[m].last = None;
+                            w.maps[m].last_imgs = None;
+                            if ep.checks.model {
+                                w.audit_map(m)?;
+                            }
+                        }
                         other => other?,
                     }
                 }
